@@ -65,6 +65,9 @@ fn vec_and_btreeset_models_agree_with_std() {
                 6 => { let mut c = v.clone(); let mut sc2 = sv.clone(); c.sort_unstable(); sc2.sort_unstable(); assert_eq!(c.iter().cloned().collect::<Vec<_>>(), sc2); }
                 _ => { if r.below(6) == 0 { v.clear(); sv.clear(); } }
             }
+            { let mut c = v.clone(); let mut sc2 = sv.clone(); c.dedup_by_key(|x| *x / 2); sc2.dedup_by_key(|x| *x / 2); assert_eq!(c.iter().cloned().collect::<Vec<_>>(), sc2);
+              let mut c1: vcoll::VVecV1<u32> = sv.iter().cloned().collect(); c1.dedup_by_key(|x| *x / 2); assert_eq!(c1.iter().cloned().collect::<Vec<_>>(), sc2);
+              let mut c = v.clone(); let mut sc3 = sv.clone(); c.dedup(); sc3.dedup(); assert_eq!(c.iter().cloned().collect::<Vec<_>>(), sc3); }
             assert_eq!(v.len(), sv.len()); assert_eq!(v.is_empty(), sv.is_empty());
             assert_eq!(v.iter().cloned().collect::<Vec<_>>(), sv);
             assert_eq!(v.first(), sv.first()); assert_eq!(v.last(), sv.last()); assert_eq!(v.contains(&x), sv.contains(&x));
